@@ -19,6 +19,9 @@ _real_replace = os.replace
 _real_rename = os.rename
 _real_remove = os.remove
 _real_makedirs = os.makedirs
+_real_exists = os.path.exists
+_real_isfile = os.path.isfile
+_real_isdir = os.path.isdir
 
 TEAR_CLASSES = ('0', '1', 'half', 'len-1', 'len')
 
@@ -255,12 +258,28 @@ class Sandbox:
         if f is not None and f['kind'] == 'kill':
             kill(proc)
 
+    def _probe(self, real):
+        """os.path.exists / isfile / isdir on a sandbox path: the answer is
+        computed, then the scheduler may run somebody else before the caller
+        acts on it (check-then-act races between nodes / workers)."""
+        def probe(path):
+            r = real(path)
+            proc = current()
+            if proc is not None and proc.sim.sched is not None \
+                    and self.inside(path):
+                if proc.dead:
+                    raise SimKill()
+                kernel.yield_point()
+            return r
+        return probe
+
     def _makedirs(self, name, mode=0o777, exist_ok=False):
         proc = current()
         if proc is None or not self.inside(name):
             return _real_makedirs(name, mode, exist_ok)
         if proc.dead:
             raise SimKill()
+        kernel.yield_point()
         r = _real_makedirs(name, mode, exist_ok)
         p, f = fs_event('makedirs', name)
         if f is not None and f['kind'] == 'kill':
@@ -277,6 +296,9 @@ class Sandbox:
         os.remove = self._remove
         os.unlink = self._remove
         os.makedirs = self._makedirs
+        os.path.exists = self._probe(_real_exists)
+        os.path.isfile = self._probe(_real_isfile)
+        os.path.isdir = self._probe(_real_isdir)
         # aliases the package under test may have bound at import time
         # (`_replace = os.replace`, `from os import remove`, ...)
         from . import seams as _seams
@@ -300,6 +322,9 @@ class Sandbox:
         os.remove = _real_remove
         os.unlink = _real_remove
         os.makedirs = _real_makedirs
+        os.path.exists = _real_exists
+        os.path.isfile = _real_isfile
+        os.path.isdir = _real_isdir
         from . import seams as _seams
         for done, real in getattr(self, '_alias_undo', []):
             _seams.unpatch(done, real)
